@@ -10,6 +10,9 @@
      M (<tk> <code> <line> <col> <lo> <hi>)*       the raw token stream for the layout MODEL (Layout.v)
        reply: `ok|err|panic|hang|fuel (<code> <lo> <hi>)*`   the model's output stream
 
+     E <canonical tree>TAB<canonical tree>          the two sides of a round trip case
+       reply: `eq` | `ne`                             verdict of the extracted [ast_eqb] (AstEq.v)
+
    The driver only converts text to the extracted data types and back. *)
 open Model
 
@@ -138,6 +141,39 @@ let do_layout rest =
       if layout_ok clean (parse_toks a) [] then "ok" else "fail empty"
   | _ -> "bad-input"
 
+(* s-expression reader for the comparator: atoms are maximal runs of non-blank, non-parenthesis
+   bytes; an unmatched ")" is an atom, unclosed nodes are closed at the end of the line (the
+   implementation side may be an error message rather than a tree) *)
+let sx_of_string (s : string) : sx =
+  let n = String.length s in
+  let stack = ref [] and cur = ref [] in
+  let atom a = cur := Atom (List.init (String.length a) (fun i -> n_of_int (Char.code a.[i]))) :: !cur in
+  let i = ref 0 in
+  while !i < n do
+    (match s.[!i] with
+     | ' ' -> incr i
+     | '(' -> stack := !cur :: !stack; cur := []; incr i
+     | ')' ->
+         (match !stack with
+          | top :: rest -> cur := Node (List.rev !cur) :: top; stack := rest
+          | [] -> atom ")");
+         incr i
+     | _ ->
+         let j = ref !i in
+         while !j < n && s.[!j] <> ' ' && s.[!j] <> '(' && s.[!j] <> ')' do incr j done;
+         atom (String.sub s !i (!j - !i));
+         i := !j)
+  done;
+  List.iter (fun top -> cur := Node (List.rev !cur) :: top) !stack;
+  Node (List.rev !cur)
+
+let do_eq rest =
+  match String.index_opt rest '\t' with
+  | None -> "bad-input"
+  | Some k ->
+      let a = String.sub rest 0 k and b = String.sub rest (k + 1) (String.length rest - k - 1) in
+      if ast_eqb (sx_of_string a) (sx_of_string b) then "eq" else "ne"
+
 let tk_of_int = function
   | 0 -> TEOF | 1 -> TShebang | 2 -> TComma | 3 -> TIn | 4 -> TCloseBlock | 5 -> TOpenBlock | 6 -> TSemi
   | 7 -> TElse | 8 -> TRBrace | 9 -> TRBracket | 10 -> TRParen | 11 -> TPipe | 12 -> TAttributeOpen
@@ -174,7 +210,7 @@ let () =
       let line = input_line stdin in
       if String.length line >= 2 then begin
         let rest = String.sub line 2 (String.length line - 2) in
-        let r = try (match line.[0] with 'S' -> do_span rest | 'L' -> do_layout rest | 'M' -> do_model rest | _ -> "bad-input")
+        let r = try (match line.[0] with 'S' -> do_span rest | 'L' -> do_layout rest | 'M' -> do_model rest | 'E' -> do_eq rest | _ -> "bad-input")
                 with e -> "driver-error " ^ Printexc.to_string e in
         print_endline r
       end
